@@ -180,7 +180,13 @@ def system_cases(ctx, n, thorough=False):
         fmt = rng.choice(["fasta", "msf", "clu"])
         th = rng.choice([1, 1, 2, 4, 7, 16])
         c = Case(recs, type_, pens[0], pens[1], pens[2], th, fmt, api if len(recs) < 90 else "file", evlog=(len(recs) <= 60))
-        if c.api == "file" and rng.random() < 0.12 and all(s for _, s in recs):
+        if c.api == "file" and i % 9 == 4 and all(s for _, s in recs) and len(recs) <= 40:
+            # names of 150..250 characters (FASTA headers are taken whole) written in the block formats, alignments wider than one block
+            recs = [("%s_%s" % (nm[:20], "".join(rng.choice("abcdefghijklmnopqrstuvwxyz0123456789_.|") for _ in range(rng.choice([150, 189, 190, 191, 200, 230, 250]) - len(nm[:20]) - 1))), sq)
+                    for nm, sq in recs]
+            if len(set(n_ for n_, _ in recs)) == len(recs):
+                c = Case(recs, type_, pens[0], pens[1], pens[2], th, rng.choice(["clu", "msf", "clu"]), "file", evlog=False, tag="names of 150-250 characters")
+        elif c.api == "file" and rng.random() < 0.12 and all(s for _, s in recs):
             # FASTA headers with free-text descriptions that mention other formats and tools, incl. the very words the format sniffer looks for
             # (a file whose first record line starts with '>' is a FASTA file whatever its descriptions say; repaired in 8e76171)
             words = ["re-aligned from a CLUSTALW run", "CLUSTAL-Omega 1.2.4 output", "exported from MSF format", "PileUp of 12", "Clustal consensus", "see MSF file",
